@@ -71,7 +71,18 @@ Pattern(p) == CASE p = "none" -> <<Rd(1), Ep(1)>>                               
 EdgeE == {[setup |-> Mk(S1, Reg4, e, r, 2, 1), ops |-> Pattern(p) \o <<St(1, 2, "one"), Rd(0), Ep(0)>>]
             : p \in {"none", "allmade", "threshold", "below"}, r \in {"0", "0.8", "1"},
               e \in {"100", "0.000000000000000001", "0.333333333333333333"}}
-EdgeCases == EdgeA \cup EdgeB \cup EdgeC \cup EdgeD \cup EdgeE
+\* F: a REGISTERED validator with ZERO stake must never be selected, whatever room the set has: registered at genesis with
+\*    nothing staked | registered later with an empty vault | everything unstaked while registered | unregistered and
+\*    registered again with an empty vault  x  max_validators 1..3 (3 leaves a free slot)  x  epoch change(s)
+SZ == <<"250000", "0", "120000">>
+SU == <<"250000", "1000", "120000">>
+EdgeF == {[setup |-> Mk(SZ, <<TRUE, TRUE, TRUE>>, "100", "0", mv, 1), ops |-> <<Rd(0), Ep(0), Rd(0), Ep(0)>>] : mv \in 1..3}
+    \cup {[setup |-> Mk(SZ, <<TRUE, FALSE, TRUE>>, "100", "0", mv, 1), ops |-> <<Own("register", 2), Rd(0), Ep(0), Rd(0), Ep(0)>>] : mv \in 1..3}
+    \cup {[setup |-> Mk(SU, <<TRUE, TRUE, TRUE>>, "100", "0", mv, 1), ops |-> <<Un(2, 1, "all"), Rd(0), Ep(0), Rd(0), Ep(0)>>] : mv \in 1..3}
+    \cup {[setup |-> Mk(SZ, <<TRUE, TRUE, TRUE>>, "100", "0", mv, 1),
+            ops |-> <<Own("unregister", 2), Own("register", 2), Rd(0), Ep(0), St(2, 2, "one"), Un(2, 2, "all"), Rd(0), Ep(0)>>] : mv \in 1..3}
+    \cup {[setup |-> Mk(<<"0", "0", "0">>, <<TRUE, TRUE, TRUE>>, "100", "0", mv, 1), ops |-> <<Rd(0), Ep(0), St(3, 2, "sub"), Rd(0), Ep(0)>>] : mv \in {1, 3}}
+EdgeCases == EdgeA \cup EdgeB \cup EdgeC \cup EdgeD \cup EdgeE \cup EdgeF
 GInit == IF Mode = "edge" THEN \E c \in EdgeCases : setup = c.setup /\ hist = c.ops /\ pending = "" /\ done = FALSE
          ELSE setup \in Setups /\ hist = <<>> /\ pending = "" /\ done = FALSE
 Pick == /\ Mode = "sim" /\ ~done /\ Len(hist) < K /\ pending = "" /\ pending' \in Kinds /\ UNCHANGED <<setup, hist, done>>
